@@ -199,6 +199,9 @@ func genC13(r *RNG, tier string, run int) *Trace {
 	if run%3 == 2 {
 		return genMultiTrace(r, tier)
 	}
+	if run%12 == 1 || run%12 == 7 || run%12 == 10 {
+		return genC13Echo(r, tier)
+	}
 	pg := defaultPGen()
 	pg.wNil = 2
 	pg.wReset = 0
@@ -223,6 +226,25 @@ func genC13(r *RNG, tier string, run int) *Trace {
 				p.HashBits1, p.HashBits2 = r.Range(1, 4), r.Range(1, 4)
 				return
 			}
+			// hash tables of every size, also much larger than the data (a
+			// reset that clears only "what can be in use" shows only there)
+			if r.Chance(0.25) {
+				hbFor := func(il int) int { return r.Range(1, min(8*il, 14)) }
+				switch p.Type {
+				case "HP", "BHP":
+					p.InputLen = r.Range(3, 8)
+					p.HashBits = hbFor(p.InputLen)
+				case "BUP":
+					p.InputLen = r.Range(3, 8)
+					p.HashBits = r.Range(1, 12)
+				case "DHP", "BDHP":
+					p.InputLen1 = r.Range(2, 6)
+					p.InputLen2 = r.Range(p.InputLen1+1, 8)
+					p.HashBits1 = hbFor(p.InputLen1)
+					p.HashBits2 = hbFor(p.InputLen2)
+				}
+				return
+			}
 			// tiny hash tables and long hash inputs so that stale entries are hit
 			if r.Chance(0.6) {
 				switch p.Type {
@@ -245,6 +267,35 @@ func genC13(r *RNG, tier string, run int) *Trace {
 		reset.N = r.Intn(bc.BufferSize + 1)
 		reset.X = r.Pick(1, 2, 3, 4)
 	}
+	if r.Chance(0.35) {
+		// the last call before the Reset is a Parse that leaves work behind
+		// (positions indexed beyond the parse position, literals cut off)
+		t.Ops = append(t.Ops, Op{K: "Write", N: 3 + r.Intn(40)}, Op{K: "Parse", F: lz.NoTrailingLiterals, Re: r.Chance(0.5)})
+	}
+	oldInput := t.Input
+	echo := r.Chance(0.2)
+	if echo {
+		// echo stratum: execute the prefix once to learn which bytes the buffer
+		// retains at the moment of the Reset; the data fed after the Reset is a
+		// mutated copy of exactly those bytes, position for position, so that
+		// whatever survives the Reset (table entries, ranks, edges, offsets) is
+		// looked up again and points at slightly different content
+		pre := runParserTrace(t, "C13", nil, 0, 0)
+		if pre.Aborted == "" && len(pre.EndRetained) > 0 && pre.EndCursor <= len(t.Input) {
+			w := append([]byte(nil), pre.EndRetained...)
+			rate := []float64{0, 0.02, 0.1, 0.3}[r.Intn(4)]
+			for i := range w {
+				if r.Chance(rate) {
+					w[i] = pre.EndRetained[r.Intn(len(w))]
+				}
+			}
+			if r.Chance(0.3) {
+				w = append(w, w...)
+			}
+			t.Input = append(append([]byte(nil), t.Input[:pre.EndCursor]...), w...)
+			oldInput = nil
+		}
+	}
 	t.ResetAt = len(t.Ops)
 	t.Ops = append(t.Ops, reset)
 	pg2 := pg
@@ -257,11 +308,189 @@ func genC13(r *RNG, tier string, run int) *Trace {
 	if len(extra) > 8000 {
 		extra = extra[:8000]
 	}
-	if r.Chance(0.5) && len(t.Input) > 0 {
+	switch x := r.Float(); {
+	case len(oldInput) == 0:
+	case x < 0.3:
 		// same bytes again: stale positions would point at equal content
-		extra = append(append([]byte(nil), t.Input[:min(len(t.Input), len(extra))]...), extra...)
+		extra = append(append([]byte(nil), oldInput[:min(len(oldInput), len(extra))]...), extra...)
+	case x < 0.6:
+		// a mutated copy of a window of the old bytes: stale entries are hit
+		// (equal hashed prefixes) but point at different content
+		a := 0
+		if r.Chance(0.5) {
+			a = r.Intn(len(oldInput))
+		}
+		w := append([]byte(nil), oldInput[a:min(len(oldInput), a+len(extra)+1)]...)
+		rate := []float64{0.02, 0.08, 0.25}[r.Intn(3)]
+		for i := range w {
+			if r.Chance(rate) {
+				w[i] = oldInput[r.Intn(len(oldInput))]
+			}
+		}
+		extra = append(w, extra...)
 	}
 	t.Input = append(t.Input, extra...)
+	return t
+}
+
+// genC13Echo is the stratum of oracle 1 that is built to make state that
+// survives a Reset visible: tables either tiny or much larger than the data
+// (a reset that clears only what "can be in use" matters only there); the
+// history ends in one of the situations in which a parser has indexed more or
+// less than it has parsed (NoTrailingLiterals cut, Parse(nil), unparsed data,
+// Shrink); the data fed after the Reset is, position for position, a mutated
+// copy of the bytes the buffer retained at the Reset (stale entries are looked
+// up again but point at slightly different content), followed by a verbatim
+// copy of them (every old string occurs again later).
+func genC13Echo(r *RNG, tier string) *Trace {
+	pg := defaultPGen()
+	pg.wNil = 1
+	pg.wReset = 0
+	pg.wResetData = 0
+	pg.wReadAt = 0
+	pg.nOps = 6 + r.Intn(30)
+	pg.plan = planOpts{chunk: true}
+	// all entropies: with few distinct strings a stale entry is overwritten
+	// before it is hit, with many it is never looked up by accident
+	lowEntropy := []string{"iid2", "iid3", "iid4", "iid16", "iid16", "iid256", "periodic", "runs", "zeroheavy", "copyback", "copyback256", "copyback256", "copyback256", "fib", "debruijn"}
+	t := genParserTrace(r, tier, ptOpts{types: parserTypes, pg: pg, families: lowEntropy, classW: []int{5, 70, 25, 0},
+		tweak: func(r *RNG, p *ParserSpec) {
+			if r.Chance(0.7) && p.ShrinkSize > p.BufferSize/2 {
+				p.ShrinkSize = r.Intn(p.BufferSize/2 + 1)
+			}
+			bs := p.BufferSize
+			if bs == 0 {
+				bs = 4096
+			}
+			big := 4 // table >= 16 * buffer
+			for 1<<big < 16*bs && big < 16 {
+				big++
+			}
+			hbFor := func(il int) int {
+				if r.Chance(0.5) {
+					return min(8*il, big)
+				}
+				return r.Range(1, 3)
+			}
+			long := r.Chance(0.7)
+			switch p.Type {
+			case "HP", "BHP", "BUP":
+				if long {
+					p.InputLen = r.Range(4, 8)
+				}
+				if p.InputLen == 0 {
+					p.InputLen = 3
+				}
+				p.HashBits = hbFor(p.InputLen)
+				if p.Type == "BUP" && p.HashBits > 12 {
+					p.HashBits = 12
+				}
+			case "DHP", "BDHP":
+				if long || p.InputLen1 == 0 {
+					p.InputLen1 = r.Range(3, 6)
+					p.InputLen2 = r.Range(p.InputLen1+1, 8)
+				}
+				p.HashBits1 = hbFor(p.InputLen1)
+				p.HashBits2 = hbFor(p.InputLen2)
+			}
+		}})
+	t.Prop = "C13"
+	bc := t.P.defaults()
+	// Ending of the history, built adaptively (the generator executes the
+	// prefix to learn the model state; the resulting trace is explicit):
+	// drain and shrink, then feed an exact repeat of retained bytes followed by
+	// fresh bytes (so that the last block has a match and trailing literals),
+	// then stop in one of the situations in which indexed and parsed positions
+	// differ.
+	il := maxInt(maxInt(t.P.InputLen, t.P.InputLen2), maxInt(t.P.MinMatchLen, 3))
+	if r.Chance(0.8) {
+		pre1 := runParserTrace(t, "C13", nil, 0, 0)
+		if pre1.Aborted == "" {
+			k := (pre1.EndUnparsed + maxInt(bc.BlockSize, 1) - 1) / maxInt(bc.BlockSize, 1)
+			for ; k > 0 && len(t.Ops) < 200; k-- {
+				t.Ops = append(t.Ops, Op{K: "Parse", Re: true})
+			}
+			t.Ops = append(t.Ops, Op{K: "Shrink"})
+			pre2 := runParserTrace(t, "C13", nil, 0, 0)
+			ret := pre2.EndRetained
+			free := bc.BufferSize - len(ret)
+			if pre2.Aborted == "" && pre2.EndCursor <= len(t.Input) && len(ret) > il+2 && free >= 2*il+4 {
+				m := il + 2 + r.Intn(24)
+				lits := il + r.Intn(il+8)
+				if m+lits > free {
+					m, lits = free-il-1, il+1
+				}
+				if m+lits > bc.BlockSize && bc.BlockSize >= 2*il+4 {
+					m, lits = bc.BlockSize-il-1, il+1
+				}
+				if m > len(ret) {
+					m = len(ret)
+				}
+				a := r.Intn(len(ret) - m + 1)
+				feed := append([]byte(nil), ret[a:a+m]...)
+				for i := 0; i < lits; i++ {
+					feed = append(feed, byte(r.Intn(256)))
+				}
+				t.Input = append(append([]byte(nil), t.Input[:pre2.EndCursor]...), feed...)
+				t.Ops = append(t.Ops, Op{K: "Write", N: len(feed)})
+			}
+		}
+	} else {
+		t.Ops = append(t.Ops, Op{K: "Write", N: 8 + r.Intn(min(bc.BufferSize/2+1, 200))})
+	}
+	switch r.Intn(6) {
+	case 0, 1, 2:
+		t.Ops = append(t.Ops, Op{K: "Parse", F: lz.NoTrailingLiterals, Re: r.Chance(0.5)})
+	case 3:
+		t.Ops = append(t.Ops, Op{K: "ParseNil"})
+	case 4:
+		t.Ops = append(t.Ops, Op{K: "Parse", Re: r.Chance(0.5)})
+	}
+	pre := runParserTrace(t, "C13", nil, 0, 0)
+	if pre.Aborted == "" && len(pre.EndRetained) > 0 && pre.EndCursor <= len(t.Input) {
+		old := pre.EndRetained
+		w := append([]byte(nil), old...)
+		rate := []float64{0.03, 0.1, 0.25}[r.Intn(3)]
+		for i := range w {
+			if r.Chance(rate) {
+				w[i] = old[r.Intn(len(old))]
+			}
+		}
+		// ... followed by a verbatim copy of (the tail of) the old bytes
+		tail := len(old)
+		if r.Chance(0.6) {
+			tail = 1 + r.Intn(min(len(old), 96))
+		}
+		w = append(w, old[len(old)-tail:]...)
+		w = append(w, genInput(r, r.Intn(min(bc.BufferSize, 4000)+1), lowEntropy[r.Intn(len(lowEntropy))])...)
+		if lim := 12000; (t.P.Type == "GSAP" || t.P.Type == "OSAP") && len(w) > lim {
+			w = w[:lim]
+		}
+		t.Input = append(append([]byte(nil), t.Input[:pre.EndCursor]...), w...)
+	}
+	reset := Op{K: "Reset"}
+	if r.Chance(0.5) {
+		reset.N = r.Intn(bc.BufferSize + 1)
+		if r.Chance(0.5) {
+			reset.N = len(pre.EndRetained)
+		}
+		reset.X = r.Pick(1, 2, 3, 4)
+	}
+	t.ResetAt = len(t.Ops)
+	t.Ops = append(t.Ops, reset)
+	if r.Chance(0.7) {
+		// feed everything that fits and parse it completely first
+		t.Ops = append(t.Ops, Op{K: "Write", N: bc.BufferSize})
+		for i := 1 + r.Intn(4); i > 0; i-- {
+			t.Ops = append(t.Ops, Op{K: "Parse", Re: true})
+		}
+	}
+	pg2 := pg
+	pg2.wNil = 0
+	pg2.nOps = 30
+	pg2.overfill = 0.2
+	t.Ops = append(t.Ops, genParserOps(r, t.P, pg2, len(t.Input)-pre.EndCursor)...)
+	t.Note += " echo"
 	return t
 }
 
